@@ -195,8 +195,12 @@ class MultiplexAdapter(H.Adapter):
         if node_meta is not None:
             kw["node_metadata"] = node_meta
         if recs:
-            kw["edge_list"] = [tuple(r["e"]) for r in recs]
-            kw["edge_layer"] = [r["layer"] for r in recs]
+            if len(recs) % 2:
+                # the documented alternative: (edge, layer) pairs and no edge_layer
+                kw["edge_list"] = [(tuple(r["e"]), r["layer"]) for r in recs]
+            else:
+                kw["edge_list"] = [tuple(r["e"]) for r in recs]
+                kw["edge_layer"] = [r["layer"] for r in recs]
             if ws is not None:
                 kw["weights"] = ws
             if metas is not None:
@@ -301,6 +305,7 @@ def check_history(case, ctx):
 
 KINDS = [k for k in H.KINDS if k not in ("remove_edges", "remove_nodes", "copy",
                                          "set_node_metadata", "set_edge_metadata")]
+KINDS += ["set_layer_meta", "set_dataset_meta"]
 
 
 def _strategy(tier):
